@@ -440,7 +440,7 @@ class Unit:
                         key = pn + '::' + ch.name
                         if key in verify or (pn + '::*') in verify: chosen.append((ch, 'verify')); found.add(key); found.add(pn + '::*')
                         elif key in stub or (pn + '::*') in stub: chosen.append((ch, 'stub')); found.add(key); found.add(pn + '::*')
-                    elif ch.kind in ('type', 'const') and (sel is None or it.name in (sel or [])):
+                    elif ch.kind in ('type', 'const'):
                         chosen.append((ch, 'plain'))
                 if not any(md != 'plain' for _, md in chosen):
                     if it.kind == 'trait' and sel is not None and ('trait ' + it.name) in sel:
@@ -451,6 +451,7 @@ class Unit:
                 hdr = src[it.attr_start:it.body_open + 1]
                 if it.kind == 'trait' and not re.match(r'pub\b', src[it.start:it.start+4]):
                     hdr = src[it.attr_start:it.start] + 'pub ' + src[it.start:it.body_open + 1]
+                hdr = self._apply_rewrites(hdr, [(r_, None, rx_, rp_, o_) for (r_, c_, rx_, rp_, o_) in file_rewrites], repo_file, line(it.attr_start))
                 em.emit(hdr, ('repo', repo_file, line(it.attr_start)))
                 em.emit('\n', ('gen', None, 0))
                 if fspec and it.kind == 'trait' and ('trait ' + it.name) in fspec.types:
@@ -518,7 +519,7 @@ class Unit:
                 node = node.setdefault('mods', {}).setdefault(seg, {})
             node.setdefault('files', []).append(repo_file)
         mod_prelude = self.cfg.get('module_prelude',
-            '#[allow(unused_imports)] use vstd::prelude::*;\n#[allow(unused_imports)] use crate::{pnet, log};\n#[allow(unused_imports)] use crate::shim::*;\n#[allow(unused_imports)] use crate::{World, Ev, Layer, Verb};\n#[allow(unused_imports)] use crate::pnet::cksum::*;\n#[allow(unused_imports)] use crate::pnet::pspec::*;\n#[allow(unused_imports)] use crate::pnet_lemmas::*;\n#[allow(unused_imports)] use crate::pnet::util::{mac_bytes, mac_at};\n#[allow(unused_imports)] use crate::client::*;\n#[allow(unused_imports)] use crate::evspec::*;\n#[allow(unused_imports)] use crate::appspec::*;\n#[allow(unused_imports)] use crate::cfgspec::*;\n#[allow(unused_imports)] use crate::tcpspec::*;\n#[allow(unused_imports)] use crate::tcbspec::*;\nbroadcast use {crate::evspec::group_events, crate::shim::group_ip_axioms, crate::shim::axiom_ipaddr_key_model, crate::pnet::util::axiom_macaddr_key_model, vstd::std_specs::hash::group_hash_axioms, crate::tcbspec::axiom_base_state_ok, crate::pnet_lemmas::group_pnet_fields, crate::pnet::cksum::axiom_pseudo6_swap};\n')
+            '#[allow(unused_imports)] use vstd::prelude::*;\n#[allow(unused_imports)] use crate::{pnet, log};\n#[allow(unused_imports)] use crate::shim::*;\n#[allow(unused_imports)] use crate::{World, Ev, Layer, Verb};\n#[allow(unused_imports)] use crate::pnet::cksum::*;\n#[allow(unused_imports)] use crate::pnet::pspec::*;\n#[allow(unused_imports)] use crate::pnet_lemmas::*;\n#[allow(unused_imports)] use crate::pnet::util::{mac_bytes, mac_at};\n#[allow(unused_imports)] use crate::client::*;\n#[allow(unused_imports)] use crate::evspec::*;\n#[allow(unused_imports)] use crate::appspec::*;\n#[allow(unused_imports)] use crate::cfgspec::*;\n#[allow(unused_imports)] use crate::tcpspec::*;\n#[allow(unused_imports)] use crate::tcbspec::*;\nbroadcast use {crate::evspec::group_events, crate::shim::group_ip_axioms, crate::shim::axiom_ipaddr_key_model, crate::pnet::util::axiom_macaddr_key_model, vstd::std_specs::hash::group_hash_axioms, crate::pnet_lemmas::group_pnet_fields, crate::pnet::cksum::axiom_pseudo6_swap};\n')
         def emit_node(node, depth, path=()):
             for f in node.get('files', []):
                 em.emit('// ---- extracted from %s\n' % f, ('gen', None, 0))
